@@ -37,7 +37,11 @@ func (s *Slice[T]) Unshift(elements ...T) int {
 	s.mu.Lock()
 	defer s.mu.Unlock()
 
-	s.elements = append(elements, s.elements...)
+	// build the result in storage of our own: appending to the caller's
+	// slice would write into (or keep) its backing array
+	merged := make([]T, 0, len(elements)+len(s.elements))
+	merged = append(merged, elements...)
+	s.elements = append(merged, s.elements...)
 	return len(s.elements)
 }
 
@@ -134,7 +138,11 @@ func (s *Slice[T]) splice(start, deleteCount int, insert ...T) ([]T, error) {
 	removed := make([]T, deleteCount)
 	copy(removed, s.elements[start:start+deleteCount])
 
-	s.elements = append(s.elements[:start], append(insert, s.elements[start+deleteCount:]...)...)
+	// copy the tail first: appending it to the caller's insert slice would
+	// write into that slice's spare capacity
+	tail := make([]T, len(s.elements)-start-deleteCount)
+	copy(tail, s.elements[start+deleteCount:])
+	s.elements = append(append(s.elements[:start], insert...), tail...)
 	return removed, nil
 }
 
